@@ -237,7 +237,7 @@ pub fn run_case(c: &OCase, stats: &mut Stats) -> Result<(), (String, String)> {
 pub const RULE: &str = "instruction level: generated 3-bank worlds on Pyth oracles, a borrower (optionally made liquidatable), then borrow / withdraw / classic liquidate / bankruptcy / receivership bracket are executed with ONE doctored oracle (collateral bank, debt bank, or a second collateral bank that the instruction does not transact in; stale, wrong owner, wrong discriminator, truncated, confidence > 10%, partial verification, another bank's authentic oracle in its place, zero price, negative price, missing): every one must fail (debt cannot be valued; liquidation/bankruptcy cannot be assessed; the account's only collateral counts as nothing; non-positive prices cannot seize). Non-trivial = asserted cells in worlds where at least one baseline instruction succeeded.";
 
 pub fn run(ctx: &Ctx) -> Report {
-    let cases: u32 = ctx.tier.pick(600, 60_000);
+    let cases: u32 = ctx.tier.pick(1500, 60_000);
     par_workers(ctx.threads, |wi| {
         let mut rep = Report::new(RULE);
         let strat = case_strategy();
